@@ -361,8 +361,9 @@ def _is_caller_scalar_read(n: ast.AST, extra_names=()) -> bool:
         s = norm(n.slice)
         if norm(n.value) in CALLER_SCALAR_DICTS:
             return True
-        return "flow_attr" in s or s in ("upperbound_attr", "lowerbound_attr")
-    if isinstance(n, ast.Call) and isinstance(n.func, ast.Attribute) and n.func.attr == "get" and n.args and "flow_attr" in norm(n.args[0]):
+        return "flow_attr" in s or s in ("upperbound_attr", "lowerbound_attr") or "length_attr" in s
+    if isinstance(n, ast.Call) and isinstance(n.func, ast.Attribute) and n.func.attr == "get" and n.args and \
+            ("flow_attr" in norm(n.args[0]) or "length_attr" in norm(n.args[0])):
         return True
     return norm(n) in extra_names
 
@@ -393,6 +394,15 @@ def python_arithmetic(prog: Program, rep, RID: str, funcs, why: str) -> int:
         for st in ast.walk(f.node):
             if isinstance(st, ast.Assign) and len(st.targets) == 1 and isinstance(st.targets[0], ast.Name) and _is_caller_scalar_read(st.value):
                 derived.add(st.targets[0].id)
+        # ... unless the local is re-bound to its converted self (`v = v.item() if hasattr(v, "item") else v`, `v = float(v)`)
+        for st in ast.walk(f.node):
+            if isinstance(st, ast.Assign) and len(st.targets) == 1 and isinstance(st.targets[0], ast.Name) and st.targets[0].id in derived:
+                v_, nm_ = st.value, st.targets[0].id
+                conv = (isinstance(v_, ast.Call) and (dotted(v_.func) or "") in _CONVERTERS and len(v_.args) == 1 and norm(v_.args[0]) == nm_) or \
+                       (isinstance(v_, ast.IfExp) and norm(v_.body) == nm_ + ".item()" and norm(v_.orelse) == nm_ and "hasattr(" in norm(v_.test)) or \
+                       norm(v_) == nm_ + ".item()"        # (the program model writes a conditional assignment as if / else stores)
+                if conv:
+                    derived.discard(nm_)
         for node in ast.walk(f.node):
             if not _is_caller_scalar_read(node, derived):
                 continue
@@ -415,6 +425,9 @@ def python_arithmetic(prog: Program, rep, RID: str, funcs, why: str) -> int:
                 if isinstance(p, ast.IfExp) and cur is p.orelse and "isinstance" in norm(p.test) and "Integral" in norm(p.test) and norm(node) in norm(p.test):
                     cur = p
                     continue      # non-integral values: keep climbing (floats do not wrap), but remember nothing
+                if isinstance(p, ast.IfExp) and cur is p.orelse and "hasattr(" in norm(p.test) and "'item'" in norm(p.test) and norm(node) in norm(p.test):
+                    kind = "converted"      # `x.item() if hasattr(x, "item") else x`: a value without .item() is not a numpy scalar
+                    break
                 if isinstance(p, ast.IfExp) and cur is p.test:
                     kind = "test"
                     break
@@ -483,4 +496,32 @@ def no_memoised_functions_of_caller_objects(prog: Program, rep, RID: str, module
             rep.ok(RID, key, "evaluated on every call", f.loc())
     if n == 0:
         raise AnalysisError(f"no module-level function found in {modules}")
+    return n
+
+
+def count_parameter_as_python_number(prog: Program, rep, RID: str, cname: str, attr: str, why: str) -> int:
+    """`self.<attr>` of class cname holds a caller's number that later takes part in arithmetic (`<attr> + 1` bits): every store of it in
+    __init__ is a converted value (`x.item()` under `hasattr(x, 'item')`, with the plain value in the else-branch only; int() / float())."""
+    from rules.semantic import enclosing_tests
+    f = prog.own_method(cname, "__init__")
+    stores = [st for st in walk_no_nested(f.node) if isinstance(st, ast.Assign) and any(norm(t) == f"self.{attr}" for t in st.targets)]
+    if not stores:
+        raise AnalysisError(f"{cname}.__init__: no store of self.{attr}")
+    n = 0
+    for st in stores:
+        n += 1
+        v = st.value
+        key = f"{cname}.__init__:{attr}:python-number"
+        tests = [(norm(t), pol) for t, pol in enclosing_tests(f.node, st)]
+        has_item = [(t, pol) for t, pol in tests if t.startswith("hasattr(") and "'item'" in t]
+        if isinstance(v, ast.Call) and ((dotted(v.func) or "") in _CONVERTERS or (isinstance(v.func, ast.Attribute) and v.func.attr == "item")):
+            rep.ok(RID, key, f"`{norm(v)}`", f.loc(st))
+        elif isinstance(v, ast.IfExp) and "hasattr(" in norm(v.test) and norm(v.body).endswith(".item()"):
+            rep.ok(RID, key, f"`{norm(v)[:80]}`", f.loc(st))
+        elif has_item and not has_item[0][1] and norm(v) in has_item[0][0]:
+            rep.ok(RID, key, f"`{norm(v)}` has no .item(): not a numpy scalar", f.loc(st))
+        elif isinstance(v, ast.Constant):
+            rep.ok(RID, key, "constant", f.loc(st))
+        else:
+            rep.violation(RID, key, f"`self.{attr} = {norm(v)[:60]}` keeps the caller's number in its own type: {why}", f.loc(st))
     return n
